@@ -200,6 +200,16 @@ func checkC16(t *testing.T, c C16Case) Verdict {
 		if pmsg != "" {
 			return bad("C16:panic:"+via, "source %s -> dest %s: %s", describeVal(src), c.Dest, pmsg)
 		}
+		if typedNil(src) {
+			// nil pointers, maps, slices, funcs, channels: whether such a value counts as "a nil
+			// value" (error) or goes through JSON null is left open; it must not panic, must not
+			// be modified, and store and result must agree (checked below)
+			if !deepEq(src, twin) {
+				return bad("C16:source-modified", "Bind modified the source value: %#v, was %#v", src, twin)
+			}
+			outs = append(outs, outcome{err != nil, dFlyt})
+			continue
+		}
 		if via == "store" && src == nil {
 			// a nil stored under a key: the statement speaks about non-nil values only; what Bind
 			// does here (today: JSON null, destination untouched) is not asserted - it must not panic
@@ -210,8 +220,8 @@ func checkC16(t *testing.T, c C16Case) Verdict {
 		if (err != nil) != refErr {
 			return bad("C16:error-mismatch:"+via, "source %s (%#v) -> dest form %s via %s: Bind error=%v, reference (own type => assign, else json.Marshal+Unmarshal) error=%v", describeVal(src), src, c.Dest, via, err, refErr)
 		}
-		// destination contents
-		if !deepEq(dFlyt, dRef) {
+		// destination contents (after a failed Bind the destination is unspecified, as usual in Go)
+		if err == nil && !deepEq(dFlyt, dRef) {
 			return bad("C16:dest-mismatch:"+via, "source %s (%#v) -> dest form %s via %s: destination is %#v, reference gives %#v", describeVal(src), src, c.Dest, via, deref(dFlyt), deref(dRef))
 		}
 		if sameType && err == nil {
@@ -221,7 +231,7 @@ func checkC16(t *testing.T, c C16Case) Verdict {
 				return bad("C16:identity", "binding into a destination of the value's own type %s did not copy it unchanged: %#v vs %#v", describeVal(src), got, src)
 			}
 			switch reflect.ValueOf(src).Kind() {
-			case reflect.Ptr, reflect.Map, reflect.Slice, reflect.Func, reflect.Chan:
+			case reflect.Ptr, reflect.Func, reflect.Chan: // (a map or slice may arrive in a fresh container)
 				if !sameValue(got, src) {
 					return bad("C16:identity-ref", "binding a %s into its own type must yield the same reference", describeVal(src))
 				}
@@ -234,7 +244,7 @@ func checkC16(t *testing.T, c C16Case) Verdict {
 		outs = append(outs, outcome{err != nil, dFlyt})
 	}
 	if len(outs) == 2 && src != nil {
-		if outs[0].isErr != outs[1].isErr || !deepEq(outs[0].dest, outs[1].dest) {
+		if outs[0].isErr != outs[1].isErr || (!outs[0].isErr && !deepEq(outs[0].dest, outs[1].dest)) {
 			return bad("C16:store-vs-result", "store.Bind and result.Bind disagree on %s -> %s", describeVal(src), c.Dest)
 		}
 	}
@@ -244,6 +254,18 @@ func checkC16(t *testing.T, c C16Case) Verdict {
 		cls = append(cls, "error-case")
 	}
 	return ok(nontrivial, cls...)
+}
+
+// typedNil: a non-nil interface holding a nil pointer, map, slice, func or channel.
+func typedNil(v any) bool {
+	if v == nil {
+		return false
+	}
+	switch rv := reflect.ValueOf(v); rv.Kind() {
+	case reflect.Ptr, reflect.Map, reflect.Slice, reflect.Func, reflect.Chan, reflect.UnsafePointer:
+		return rv.IsNil()
+	}
+	return false
 }
 
 func deref(p any) any {
@@ -378,7 +400,16 @@ func checkC16Sess(t *testing.T, sc C16Sess) Verdict {
 				}
 			}
 		case "bind":
-			v, present := cur[st.Key]
+			// the value as the store reports it NOW (a store that keeps its own copy of a container
+			// does not see in-place updates made through the caller's reference; one that keeps the
+			// caller's object does - either way Bind must agree with Get)
+			v, present := s.Get(st.Key)
+			if _, set := cur[st.Key]; set != present {
+				return bad("C16:session-get", "step %d: Get(%q) present=%v after the key was set=%v", i, st.Key, present, set)
+			}
+			if typedNil(v) || (present && v == nil) {
+				continue
+			}
 			dF := buildDest(st.Dest, v, st.Prepop)
 			dR := buildDest(st.Dest, v, st.Prepop)
 			var err error
@@ -389,13 +420,13 @@ func checkC16Sess(t *testing.T, sc C16Sess) Verdict {
 			if (err != nil) != refErr {
 				return bad("C16:session-error", "step %d: Bind(%q -> %s) error=%v, reference on the CURRENT value error=%v (binds of this key so far: %d)", i, st.Key, st.Dest, err, refErr, bound[st.Key])
 			}
-			if !deepEq(dF, dR) {
+			if err == nil && !deepEq(dF, dR) {
 				return bad("C16:session-stale", "step %d: Bind(%q -> %s) gave %#v, the JSON round-trip of the value as it is now gives %#v (binds of this key so far: %d; value was updated in place: %v)", i, st.Key, st.Dest, deref(dF), deref(dR), bound[st.Key], mutated)
 			}
 			if present && v != nil {
 				d2 := buildDest(st.Dest, v, st.Prepop)
 				err2 := flyt.NewResult(v).Bind(d2)
-				if (err2 != nil) != (err != nil) || !deepEq(d2, dF) {
+				if (err2 != nil) != (err != nil) || (err == nil && !deepEq(d2, dF)) {
 					return bad("C16:session-store-vs-result", "step %d: store.Bind and result.Bind disagree on key %q -> %s", i, st.Key, st.Dest)
 				}
 			}
